@@ -1,0 +1,29 @@
+//go:build verif
+
+package statuschecker
+
+import (
+	"context"
+	"fmt"
+
+	"github.com/agglayer/aggkit/aggsender/types"
+)
+
+// VerifRecoverOnceC13 runs exactly one iteration of the loop body of (*certStatusChecker).CheckInitialStatus
+// (CheckPendingCertificatesStatus, then checkLastCertificateFromAgglayer) and returns its error instead of
+// retrying. For observation only it also reports which action initialStatus.process() chooses on the state
+// the real call sees (process() has no side effects). Thin wrapper for the /verif C13 harness.
+func VerifRecoverOnceC13(ctx context.Context, checker types.CertificateStatusChecker) (string, error) {
+	c, ok := checker.(*certStatusChecker)
+	if !ok {
+		return "", fmt.Errorf("verif: not a *certStatusChecker")
+	}
+	c.CheckPendingCertificatesStatus(ctx)
+	action := "refused"
+	if st, err := newInitialStatusFn(ctx, c.log, c.l2OriginNetwork, c.storage, c.agglayerClient); err == nil {
+		if res, err := st.process(); err == nil && res != nil {
+			action = res.action.String()
+		}
+	}
+	return action, c.checkLastCertificateFromAgglayer(ctx)
+}
